@@ -28,6 +28,7 @@ EXPLANATION = (
     ' (R7) a callback stores _retry = 0 only on paths on which it also completes the request (result / exception set, future found done or absent): a reset followed by a cancellation would re-enter the retry branch with a fresh budget.'
     ' A call that names a package class or function directly without its required arguments (call arity) is a TypeError source in the exception summaries the callback rules use.'
     " (R4 retry-store) the transmission counter is only ever assigned '= 0' or '+= 1' in the protocol classes."
+    ' (R8) execute() calls send_request at most once per activation and never re-enters itself; _read_from_socket executes the command once.'
 )
 
 
@@ -46,6 +47,8 @@ def check(ctx: Ctx, rep: Report):
         r4(ctx, rep, ci)
     r5(ctx, rep)
     retry_stores(ctx, rep)
+    rep.rule("C04.R8", "the retries+1 bound of send_request is the bound of the request: execute() calls send_request at most once per activation and never re-enters itself; _read_from_socket executes the command once", 2)
+    single_activation(ctx, rep)
     for ci in proto_classes(ctx):
         r7(ctx, rep, ci)
     # ---- R6 shared with C01
@@ -55,6 +58,35 @@ def check(ctx: Ctx, rep: Report):
     c01_r4(ctx, sub, ctx.memo("families", lambda: families(ctx.prog, ctx.res)))
     for o in sub.obligations:
         rep.obligations.append(type(o)("C04.R6", o.key, o.where, o.what, o.status, o.detail))
+
+
+def single_activation(ctx, rep):
+    """send_request transmits at most retries + 1 times (R4); a request is one send_request: no path of
+    ProtocolCommand.execute (exception handlers included) calls it twice or calls execute again, and
+    Inverter._read_from_socket awaits execute once.  (A second, separate budget - e.g. a 'busy' retry around execute -
+    multiplies the bound.)"""
+    prog = ctx.prog
+    for cname, mname, callee in (("ProtocolCommand", "execute", "send_request"), ("Inverter", "_read_from_socket", "execute")):
+        fn = prog.cls(cname).methods.get(mname)
+        if fn is None:
+            raise AnalysisError("%s.%s not found" % (cname, mname))
+        worst, rec = None, None
+        npaths = 0
+        for p in protocol_paths(ctx, fn):
+            npaths += 1
+            calls = [ev.node for ev in p.events if ev.kind == "call" and isinstance(ev.node.func, ast.Attribute) and ev.node.func.attr == callee]
+            again = [ev.node for ev in p.events if ev.kind == "call" and isinstance(ev.node.func, ast.Attribute) and ev.node.func.attr == mname
+                     and (call_chain(ev.node) or ("",))[0] in ("self", "cls")]
+            if len(calls) > 1 and worst is None:
+                worst = p
+            if again and rec is None:
+                rec = p
+        if npaths == 0:
+            raise AnalysisError("%s.%s has no path" % (cname, mname))
+        rep.check(worst is None and rec is None, "C04.R8", "single:%s.%s" % (cname, mname), fn.loc(),
+                  "%s.%s calls %s at most once per activation and does not re-enter itself (%d paths)" % (cname, mname, callee, npaths),
+                  bad="%s.%s %s: every such activation has its own budget of retries + 1 transmissions, so one request can transmit more often than that [path %s]" % (
+                      cname, mname, "calls %s more than once on a path" % callee if worst is not None else "calls itself again", (worst or rec).describe(8) if (worst or rec) else ""))
 
 
 def retry_stores(ctx, rep):
